@@ -297,6 +297,7 @@ func Check(id, tier string, seed int) int {
 	nObl, nDis, nCover, nCoverOK, nKnown := 0, 0, 0, 0, 0
 	var violations []string
 	var samples []interface{}
+	var retried []interface{}
 	assume := map[string]bool{}
 	for _, a := range p.Assumptions {
 		assume[a] = true
@@ -356,6 +357,12 @@ func Check(id, tier string, seed int) int {
 				nDis++
 				if len(samples) < 5 {
 					samples = append(samples, map[string]string{"obligation": ob.Name, "goal": ob.Goal, "status": "unsat", "solver": ob.Solver})
+				}
+				if ob.Solver != "" && !strings.HasPrefix(ob.Solver, "z3-new-5.1.0") || strings.Contains(ob.Solver, "seed+") || ob.Seconds > 5 {
+					// not decided by the primary solver on the whole script, or slow: the ones to watch
+					if len(retried) < 40 {
+						retried = append(retried, map[string]interface{}{"obligation": ob.Name, "solver": ob.Solver, "seconds": round2(ob.Seconds)})
+					}
 				}
 				continue
 			}
@@ -430,6 +437,7 @@ func Check(id, tier string, seed int) int {
 		engineErr = true
 	}
 	bySolver := map[string]interface{}{}
+	_ = retried
 	for k, v := range stats {
 		bySolver[k] = map[string]interface{}{"discharged": v.Discharged, "seconds": round2(v.Seconds)}
 		solverSecs += v.Seconds
@@ -459,6 +467,7 @@ func Check(id, tier string, seed int) int {
 		"not_covered":              p.NotCovered,
 		"bounded_standins":         boundedEv,
 		"samples":                  samples,
+		"retried_or_slow":          retried,
 	}
 	os.MkdirAll(filepath.Join(verif, "evidence"), 0o755)
 	b, _ := json.MarshalIndent(ev, "", " ")
